@@ -129,7 +129,7 @@ class HandlerSuite(Suite):
         return {'apps': apps, 'procs': procs, 'ops': ops[:max_ops + 6]}
 
     def generate(self, rng, tier):
-        n, max_ops = (2400, 30) if tier == 'quick' else (40000, 200)
+        n, max_ops = (2400, 30) if tier == 'quick' else (12000, 120)
         return [self.gen_case(rng, max_ops, hostile=(k % 6 == 5)) for k in range(n)]
 
     # ---------------- execution on the real classes
@@ -668,7 +668,99 @@ def replay_f8():
     print('F8 CONFIRMED' if ok1 and not ok2 else 'F8 NOT reproduced')
 
 
+def replay_f9():
+    """ node-level replay (peer 2's published views are scripted): the Master (instance 3) is lost together with
+    app:solo (RESTART_PROCESS) that ran only there; the local instance becomes the new Master """
+    from supvisors.statemachine import FiniteStateMachine
+    from supvisors.ttypes import SupvisorsStates, SupvisorsInstanceStates, RunningFailureStrategies
+    ensure_clock()
+    supv = svenv.make_supvisors()
+    supv.parser = None
+    ctx = supv.context
+    calls = []
+    supv.failure_handler.add_default_job = lambda p: calls.append(('add_default_job', p.namespec))
+    supv.failure_handler.trigger_jobs = lambda: None
+    supv.starter.in_progress = lambda: False
+    supv.stopper.in_progress = lambda: False
+    supv.starter.on_instances_invalidation = lambda lost, procs: calls.append(
+        ('on_instances_invalidation', list(lost), sorted(p.namespec for p in procs)))
+    supv.stopper.on_instances_invalidation = lambda lost, procs: None
+    supv.starter.start_applications = lambda *a, **k: calls.append(('start_applications',))
+    svenv.CLOCK.now = 1000
+    fsm = supv.fsm = FiniteStateMachine(supv)
+    running = SupvisorsInstanceStates.RUNNING
+    for i in range(1, 7):
+        ctx.instances[ident(i)]._state = running if i <= 3 else SupvisorsInstanceStates.STOPPED
+    sm = supv.state_modes
+    state = SupvisorsStates.OPERATION
+    sm.master_identifier = ident(3)
+    for i in (1, 2, 3):
+        ism = sm.instance_state_modes[ident(i)]
+        ism.master_identifier = ident(3)
+        ism.state = state
+        ism.instance_states = {ident(j): (running if j <= 3 else SupvisorsInstanceStates.STOPPED) for j in range(1, 7)}
+    ctx.load_processes(ctx.instances[ident(3)], [process_info('app', 'solo', 20, 990)], check_state=False)
+    ctx.load_processes(ctx.instances[ident(1)], [process_info('app', 'other', 20, 990)], check_state=False)
+    ctx.applications['app'].rules.managed = True
+    solo = ctx.applications['app'].processes['solo']
+    solo.rules.running_failure_strategy = RunningFailureStrategies.RESTART_PROCESS
+    sm.state = state
+    fsm.instance = fsm._StateInstances[state](supv)
+    print(f'F9 replay: local=1 in {fsm.state.name}, Master=3 hosts app:solo (RESTART_PROCESS); instance 3 is lost')
+    ctx.on_instance_failure(ctx.instances[ident(3)])
+    seen = False
+    for k in range(8):
+        svenv.CLOCK.now += 5
+        ism2 = sm.instance_state_modes[ident(2)]   # peer 2 lost 3 as well and follows
+        ism2.instance_states[ident(3)] = ctx.instances[ident(3)].state
+        ism2.master_identifier = sm.master_identifier
+        ism2.state = fsm.state
+        fsm.next()
+        seen = seen or any(c[0] == 'add_default_job' for c in calls)
+        print(f'  evaluation {k}: state={fsm.state.name} master={sm.master_identifier!r} is_master={sm.is_master()} '
+              f'app:solo state={solo.state} calls={calls}')
+        del calls[:]
+    print('F9 CONFIRMED (node level): the new Master never hands app:solo to the failure handler' if not seen
+          else 'F9 NOT reproduced')
+
+
+def replay_f10():
+    """ a process with running failure strategy RESTART crashes while the Master is in ELECTION """
+    from supvisors.statemachine import FiniteStateMachine
+    from supvisors.process import ProcessStatus, ProcessRules
+    from supvisors.ttypes import SupvisorsStates, RunningFailureStrategies
+    from supervisor.states import ProcessStates
+    ensure_clock()
+    for start in ('OPERATION', 'ELECTION'):
+        supv = svenv.make_supvisors()
+        supv.starter.on_event = lambda *a: None
+        supv.stopper.on_event = lambda *a: None
+        crit = []
+
+        class Log(svenv.NullLogger):
+            def critical(self, message, *a, **k):
+                crit.append(message)
+        object.__setattr__(supv, 'logger', Log())
+        fsm = FiniteStateMachine(supv)
+        rules = ProcessRules(supv)
+        rules.running_failure_strategy = RunningFailureStrategies.RESTART
+        process = ProcessStatus('app', 'proc', rules, supv)
+        process._state = ProcessStates.FATAL
+        process.expected_exit = False
+        supv.context.on_process_state_event = lambda status, event: process
+        supv.state_modes.master_identifier = ident(1)
+        supv.state_modes.state = SupvisorsStates[start]
+        fsm.instance = fsm._StateInstances[SupvisorsStates[start]](supv)
+        fsm.on_process_state_event(supv.context.instances[ident(2)], {})
+        print(f'F10 replay: Master in {start}, RESTART-strategy process crashes -> state={fsm.state.name}; '
+              f'critical logs: {crit}')
+
+
 if __name__ == '__main__':
     import sys
     if sys.argv[1:] == ['f8']:
         replay_f8()
+    elif sys.argv[1:] == ['f9']:
+        replay_f9()
+    elif sys.argv[1:] == ['f10']:
+        replay_f10()
